@@ -81,6 +81,10 @@ class Prop:
         long_lines += [b'\\g:1-2-73874,n:157036,s:r003669945,c:1241544035*4A\\!AIVDM,1,1,,B,15N4cJ`005Jrek0H@9n`DW5608EP,0*13\r\n',
                        b'\\s:station-with-a-long-name,c:1671533231,t:some free text that makes the block long*55\\'
                        b'!AIVDM,2,1,3,A,55?MbV02;H;s<HtKR20EHE:0@T4@Dn2222222216L961O5Gf0NSQEp6ClRp8,0*1C\n']
+        # text that is not ASCII (station names in tag blocks, comment lines of a provider; UTF-8 and Latin-1): a packet
+        # boundary may fall between the bytes of one character
+        long_lines += [b'# kommentar: Troms\xc3\xb8 \xe6\xb8\xaf \xf0\x9f\x9a\xa2\n', b'# caf\xe9 du port\r\n', b'\xc3\xb8\n',
+                       gen.tag_block(b's:Troms\xc3\xb8,c:1671533231') + b'!AIVDM,1,1,,B,15N4cJ`005Jrek0H@9n`DW5608EP,0*13\r\n']
         lines, meta = [], []
         for L in long_lines:
             stream = b'ab\n' + L + b'cd\n'
